@@ -658,6 +658,13 @@ def cmp_num(name, got, ref, dec, bad):
         bad.append((name, "present on one side only"))
         return
     got, ref = np.asarray(got), np.asarray(ref)
+    if got.dtype.kind in "USO":
+        # a yaml file prints "nan" / "inf" as bare words, which the yaml loader hands back as strings
+        try:
+            got = np.array([float(x) for x in got.ravel()], dtype=float).reshape(got.shape)
+        except (TypeError, ValueError):
+            bad.append((name, "not numbers: %r" % got.ravel()[:3].tolist()))
+            return
     if got.shape != ref.shape:
         bad.append((name, "shape %s vs %s" % (got.shape, ref.shape)))
         return
